@@ -1473,6 +1473,34 @@ where
     ) {
         const DEQ_NAME: &str = "probation";
         let mut evicted = 0u64;
+        // Cause probe: the cache looks over its capacity while a dead (expired or
+        // invalidated) entry is held behind a live one, out of the purge's reach.
+        #[cfg(mini_moka_verif)]
+        if crate::verif::active() && (self.has_expiry() || self.has_valid_after()) {
+            let now = self.current_time_from_expiration_clock();
+            let (ttl, tti, va) = (&self.time_to_live, &self.time_to_idle, &self.valid_after());
+            let mut errs = Vec::new();
+            let mut live_seen = false;
+            let mut dead = false;
+            for n in deqs.probation.verif_walk("probation", &mut errs) {
+                if is_expired_entry_ao(tti, va, unsafe { n.as_ref() }, now) {
+                    dead |= live_seen;
+                } else {
+                    live_seen = true;
+                }
+            }
+            let mut live_seen = false;
+            for n in deqs.write_order.verif_walk("write_order", &mut errs) {
+                if is_expired_entry_wo(ttl, va, unsafe { n.as_ref() }, now) {
+                    dead |= live_seen;
+                } else {
+                    live_seen = true;
+                }
+            }
+            if dead {
+                crate::verif::probe("cause.evict_with_dead_resident", 0);
+            }
+        }
         let (deq, write_order_deq) = (&mut deqs.probation, &mut deqs.write_order);
 
         for _ in 0..batch_size {
